@@ -10,10 +10,10 @@ echo "== build with change"; make -j8 >/dev/null 2>&1; echo "make rc=$?"
 echo "== test suite with change"; make -C src/tests -j8 check 2>&1 | grep -E '^# (TOTAL|PASS|FAIL|ERROR)'
 cc -g -fsanitize=address -I "$W/src" -I "$W" demo.c "$W/src/.libs/libvna.a" -lyaml -lm -o demo_with 2>&1 | tail -2
 ./demo_with >/dev/null 2>&1; echo "demo with change rc=$?"
-git stash -q; make -j8 >/dev/null 2>&1
+git diff -- src > /tmp/confirm_$ID.patch; git apply -R /tmp/confirm_$ID.patch; make -j8 >/dev/null 2>&1
 cc -g -fsanitize=address -I "$W/src" -I "$W" demo.c "$W/src/.libs/libvna.a" -lyaml -lm -o demo_without 2>&1 | tail -2
 ./demo_without >/dev/null 2>&1; echo "demo without change rc=$?"
-git stash pop -q; make -j8 >/dev/null 2>&1
+git apply /tmp/confirm_$ID.patch; rm -f /tmp/confirm_$ID.patch; make -j8 >/dev/null 2>&1
 } > $LOG 2>&1
 mkdir -p /verif/seeded/$ID
 git diff -- src > /verif/seeded/$ID/patch.diff
